@@ -1,6 +1,83 @@
-import common
+import json, os, random, shutil
+import common, t3util
 
 PID = "C20"
+
+
+def t3(rep, tier, seed):
+    """The split verb on the real binary: every input record lands in exactly one file, all files are where
+    --folder / --prefix say (nothing stray), and with -g every file holds one group."""
+    mlr, _ = t3util.binaries(rep)
+    if not mlr:
+        return
+    rng = random.Random(seed)
+    base = t3util.scratch("c20")
+    n = 0
+    try:
+        recs = []
+        for i in range(1, 41):
+            r = {"id": i}
+            if rng.random() < 0.75:
+                r["shape"] = rng.choice(["circle", "square", "tri angle", "a/b", ""])
+            if rng.random() < 0.8:
+                r["color"] = rng.choice(["red", "blue"])
+            r["v"] = rng.randrange(100)
+            recs.append(r)
+        data = "".join(json.dumps(r) + "\n" for r in recs).encode()
+        variants = []
+        for g in (["-g", "shape"], ["-g", "shape,color"], ["-g", "nosuch"], ["-n", "7"], ["-m", "3"]):
+            for folder in (None, "outdir", "deep/er"):
+                for pre in (None, "part"):
+                    for suf in (None, "dat"):
+                        variants.append((g, folder, pre, suf))
+        if tier == "quick":
+            variants = [v for k, v in enumerate(variants) if k % 2 == 0]
+        for g, folder, pre, suf in variants:
+            cwd = os.path.join(base, "w%d" % n)
+            os.makedirs(cwd)
+            argv = ["--ijsonl", "--ojsonl", "split"] + g
+            if folder:
+                os.makedirs(os.path.join(cwd, folder), exist_ok=True)
+                argv += ["--folder", folder]
+            if pre:
+                argv += ["--prefix", pre]
+            if suf:
+                argv += ["--suffix", suf]
+            rc, so, se = t3util.run(mlr, argv, stdin=data, cwd=cwd)
+            n += 1
+            files = []
+            for root, _, fs in os.walk(cwd):
+                for f in fs:
+                    files.append(os.path.relpath(os.path.join(root, f), cwd))
+            problem = None
+            if rc != 0:
+                problem = "split failed"
+            else:
+                where = folder or "."
+                stray = [f for f in files if os.path.normpath(os.path.dirname(f) or ".") != os.path.normpath(where)]
+                if stray:
+                    problem = "files written outside the requested folder: %s" % stray
+                got = []
+                for f in files:
+                    rows = [json.loads(l) for l in open(os.path.join(cwd, f)) if l.strip()]
+                    got += rows
+                    if pre and not os.path.basename(f).startswith(pre + "_") and problem is None:
+                        problem = "file name does not start with the prefix: " + f
+                    if suf and not f.endswith("." + suf) and problem is None:
+                        problem = "file name does not end with the suffix: " + f
+                    if g[0] == "-g" and problem is None:
+                        keys = set(tuple((k, json.dumps(r.get(k))) if k in r else (k, None) for k in g[1].split(",")) for r in rows)
+                        if len(keys) > 1 and not all(any(v is None for _, v in kk) for kk in keys):
+                            problem = "a file holds more than one group: " + f
+                if problem is None and sorted(json.dumps(r, sort_keys=True) for r in got) != sorted(json.dumps(r, sort_keys=True) for r in recs):
+                    problem = "the union of the files is not the input (%d records in, %d in files)" % (len(recs), len(got))
+            if problem:
+                rep.violation("spec", "split: " + problem, {"argv": ["mlr"] + argv, "exit": rc, "stderr": se.decode(errors="replace")[:300], "files": sorted(files)[:20]}, True)
+    finally:
+        shutil.rmtree(base, ignore_errors=True)
+    rep.coverage.setdefault("t3", {})["split_runs"] = n
+    rep.coverage["evaluations"] = rep.coverage.get("evaluations", 0) + n
+    rep.coverage["distinct_nontrivial"] = rep.coverage.get("distinct_nontrivial", 0) + n
 
 
 def check(tier, seed):
@@ -11,6 +88,7 @@ def check(tier, seed):
             "the real manager is driven in-process with real files in a scratch directory and the real CSV/DKVP/JSON writers (harness/c20.go); the driver renders the model's documents with its own small writers for these three formats (flat records, text/integer values)",
         ],
         rule="seeded write histories: 1-5 targets x 0-11 writes with arbitrary revisit patterns, and histories over 255/256/257/258/300 targets (single sweep + revisit, double sweep, hot target kept alive + cold revisits, 400 random writes) x write/append mode x 0-2 pre-existing target files x csv/dkvp/json; distinct = distinct protocol lines",
+        extra=t3,
     )
 
 
